@@ -17,6 +17,9 @@ def run(prop, tier, seed):
     if prop == 'C20':
         from . import gen_coro
         return gen_coro.run(prop, tier, seed)
+    if prop == 'C09':
+        from . import gen_args
+        return gen_args.run(prop, tier, seed)
     if prop == 'C12':
         from . import thr
         return thr.run(prop, tier, seed)
